@@ -436,9 +436,19 @@ class ModelRegistry:
                                                                   elt_f(wit(v)) == v)), patterns=[s.contains(v)]))
             return it.new_set(s)
         out = SymSeq.fresh(st, 'comp')
+        j, j2 = z3.Ints('qj qj2')
+        if not g.ifs:
+            # no filter: the result is the element-wise image of the sequence.  (The index maps of the filtered case are not
+            # introduced: their strictly-increasing axiom is quadratic in the index terms and made refutable obligations of
+            # code holding such a comprehension run for minutes before E-matching saturated.)
+            st.assume(out.len == base.len)
+            st.assume(FA([j], z3.Implies(z3.And(j >= 0, j < out.len), out.at(j) == elt_f(j)), patterns=[out.at(j), base.at(j)]))
+            res = it.new_list(out)
+            ident = lambda i_: i_
+            it.st.ghost.setdefault('comp', {})[res.id] = dict(base=base, out=out, src=ident, dst=ident, cond=cond_f, elt=elt_f)
+            return res
         src = st.fresh_func('comp_src', IntS, IntS)     # result index -> source index (strictly increasing)
         dst = st.fresh_func('comp_dst', IntS, IntS)     # source index -> result index
-        j, j2 = z3.Ints('qj qj2')
         st.assume(FA([j], z3.Implies(z3.And(j >= 0, j < out.len),
                                             z3.And(src(j) >= 0, src(j) < base.len, cond_f(src(j)),
                                                    out.at(j) == elt_f(src(j)), dst(src(j)) == j)),
